@@ -35,14 +35,19 @@ ASSUMPTIONS = [
     "Across input kinds / call forms field VALUES are compared (not the _sizes bookkeeping nor the scalar wrapper class): "
     "T(b'x') on a structure whose only field is a char of exactly that size is a documented value-construction shortcut.",
 ]
-REAL = ["dissect.cstruct readers (compiled and interpreted)", "io.BytesIO", "io.BufferedReader", "mmap.mmap (anonymous)"]
+REAL = ["dissect.cstruct readers (compiled and interpreted)", "io.BytesIO", "io.BufferedReader", "mmap.mmap (anonymous)",
+        "binary file objects and gzip.GzipFile over scratch files (created, opened and unlinked inside the run)"]
 STUBS = ["SimStream (logging seekable stream; injects one read error for failing parses)"]
 FORMS = ["call", "read", "cs.read", "_read"]
 
 
 def gen_case(rng: random.Random, tier: str):
     cfg = gen.gen_config(rng)
-    g = gen.DefGen(rng)
+    kind = rng.choice(["bytesio", "sim", "sim", "sim", "mmap", "buffered", "gzip", "file"])
+    sw = gen.gen_swarm(rng)
+    if kind in ("gzip", "file"):
+        sw["eof"] = rng.random() < 0.6  # real files: the end-of-data probe of to-end arrays is where file objects differ
+    g = gen.DefGen(rng, swarm=sw)
     defs = g.build()
     unit = 16 if cfg["align"] else 1
     ops = []
@@ -81,7 +86,7 @@ def gen_case(rng: random.Random, tier: str):
     return {"cfg": cfg, "defs": defs, "eof_tagged": g.has_eof and root_sel is None, "seed": rng.getrandbits(32), "image": None, "marks": None,
             "root_sel": root_sel,
             "pre": rng.randint(0, 3) * unit if rng.random() < 0.3 else rng.randint(0, 40) // unit * unit,
-            "gap": rng.randint(0, 24) // unit * unit, "suf": rng.randint(0, 24), "kind": rng.choice(["bytesio", "sim", "sim", "mmap", "buffered"]),
+            "gap": rng.randint(0, 24) // unit * unit, "suf": rng.randint(0, 24), "kind": kind,
             "ops": ops, "twin_seed": rng.getrandbits(32), "aliases": aliases}
 
 
@@ -181,6 +186,20 @@ def run_case(case, stats):
             m.seek(0)
             stats.count("probe.stream_kind_mmap")
             return m
+        if case["kind"] in ("gzip", "file") and not faults:
+            # real file objects: a plain binary file, or a decompressing reader over a (compressed) regular file - a seekable
+            # stream with a fileno() whose file size is NOT the size of the stream's data. The file is unlinked right away.
+            import gzip
+            import os
+            import tempfile
+
+            fd, path = tempfile.mkstemp(prefix="verif_c09_")
+            with os.fdopen(fd, "wb") as fh:
+                fh.write(gzip.compress(img, mtime=0) if case["kind"] == "gzip" else img)
+            fobj = open(path, "rb")
+            os.unlink(path)
+            stats.count("probe.stream_kind_" + case["kind"])
+            return gzip.GzipFile(fileobj=fobj, mode="rb") if case["kind"] == "gzip" else fobj
         if case["kind"] == "buffered" and not faults:
             stats.count("probe.stream_kind_buffered_reader")
             return io.BufferedReader(io.BytesIO(img), buffer_size=rng_bufsize)
@@ -228,7 +247,9 @@ def run_case(case, stats):
                 stats.count("evaluations")
                 stats.count("probe.parse_through_alias_chain")
                 stats.log(p, an, got)
-                if got != exp and not (case["kind"] == "mmap" and got == ("exc", "ValueError") and (exp[0] == "exc" or p + exp[2] > len(image))):
+                gz = (case["kind"] == "gzip" and exp[0] == "val" and p + exp[2] > len(image) and got[0] == "val"
+                      and _values_only(got[1]) == _values_only(exp[1]))
+                if got != exp and not gz and not (case["kind"] == "mmap" and got == ("exc", "ValueError") and (exp[0] == "exc" or p + exp[2] > len(image))):
                     raise Violation("input_kinds", "read_by_alias_name_differs",
                                     f"cs.read({an!r}, stream) at p={p} after {hist}: got {got}, parsing the type that name resolves to gives {exp}", p=p)
                 hist.append("parse_ok" if got[0] == "val" else "parse_fail")
@@ -249,6 +270,13 @@ def run_case(case, stats):
                 # truncated data fails on both, but with the memory map's own ValueError where BytesIO yields EOFError.
                 stats.count("probe.mmap_extent_beyond_end_exempt")
                 hist.append("parse_fail")
+                continue
+            if (case["kind"] == "gzip" and exp[0] == "val" and p + exp[2] > len(image) and got[0] == "val"
+                    and _values_only(got[1]) == _values_only(exp[1])):
+                # a decompressing reader cannot be positioned beyond the end of its data either: seek() stops at the end
+                # without an error, so the position (and the recorded size of the last field) falls short of the tail padding
+                stats.count("probe.gzip_extent_beyond_end_exempt")
+                hist.append("parse_ok")
                 continue
             if p:
                 stats.key(shape, p % 16, case["kind"], op["form"], tuple(hist[-3:]))
